@@ -270,6 +270,7 @@ type scenario struct {
 	Pace     netlab.Pace
 	Illegal  int64 // -1: none; else the illegal length prefix value
 	IllegalJ int   // number of good packets before the illegal prefix
+	IllegalBody bool // the illegal prefix is followed by a body of exactly the announced size (a complete over-long packet)
 	Pool     int
 }
 
@@ -278,7 +279,7 @@ func (s scenario) String() string {
 	if len(sz) > 80 {
 		sz = sz[:80] + "…"
 	}
-	return fmt.Sprintf("%s max=%d pool=%d packets=%d sizes=%s cuts=%s pace=%d illegal=%d after %d", s.Side, s.MaxLen, s.Pool, len(s.Sizes), sz, s.CutKind, s.Pace, s.Illegal, s.IllegalJ)
+	return fmt.Sprintf("%s max=%d pool=%d packets=%d sizes=%s cuts=%s pace=%d illegal=%d after %d complete-body=%v", s.Side, s.MaxLen, s.Pool, len(s.Sizes), sz, s.CutKind, s.Pace, s.Illegal, s.IllegalJ, s.IllegalBody)
 }
 
 func buildPackets(r *rand.Rand, sizes []int) [][]byte {
@@ -447,7 +448,11 @@ func serverScenario(srv *server, sc scenario, r *rand.Rand) {
 		var h [4]byte
 		binary.BigEndian.PutUint32(h[:], uint32(sc.Illegal))
 		stream = append(stream, h[:]...)
-		stream = append(stream, []byte("garbage after the illegal prefix")...)
+		if sc.IllegalBody {
+			stream = append(stream, bytes.Repeat([]byte{'X'}, int(sc.Illegal)-4)...)
+		} else {
+			stream = append(stream, []byte("garbage after the illegal prefix")...)
+		}
 	}
 	conn, err := net.DialTimeout("tcp", srv.addr, 3*time.Second)
 	if err != nil {
@@ -578,7 +583,11 @@ func clientScenario(sc scenario, r *rand.Rand) {
 		var h [4]byte
 		binary.BigEndian.PutUint32(h[:], uint32(sc.Illegal))
 		stream = append(stream, h[:]...)
-		stream = append(stream, []byte("garbage")...)
+		if sc.IllegalBody {
+			stream = append(stream, bytes.Repeat([]byte{'X'}, int(sc.Illegal)-4)...)
+		} else {
+			stream = append(stream, []byte("garbage")...)
+		}
 	case sc.Illegal == -2: // a packet cut short, then the server closes
 		part := pkts[sc.IllegalJ]
 		stream = append(stream, part[:len(part)/2+2]...)
@@ -775,9 +784,16 @@ func main() {
 			}
 		}
 		// ---- illegal prefixes (each costs >= 0.5 s of the server's own close polling): in parallel ----
-		illegal := []int64{0, 1, 3, int64(ml) + 1, 1 << 31, 1<<32 - 1}
+		// the last two: a COMPLETE packet one byte longer than the maximum, written in one piece
+		// (alone, and coalesced behind good packets), so that it may well arrive in a single read
+		illegal := []int64{0, 1, 3, int64(ml) + 1, 1 << 31, 1<<32 - 1, int64(ml) + 1, int64(ml) + 1}
 		var wg2 sync.WaitGroup
 		for i, pv := range illegal {
+			if i >= 6 && ml+1+20*12 > 4096 {
+				// only where the whole stream fits one read of the receive loop: a peer that closes
+				// with unread bytes answers with a reset, which may take the acknowledgements with it
+				continue
+			}
 			for _, side := range []string{"server", "client"} {
 				wg2.Add(1)
 				go func(i int, pv int64, side string) {
@@ -786,6 +802,15 @@ func main() {
 					j := []int{0, 1, 5, 20}[i%4]
 					sizes := sizesFor(rr, min(ml, 8192), j+1, false)
 					sc := scenario{ID: 900000 + i, Side: side, MaxLen: ml, Sizes: sizes, CutKind: cutKinds[i%len(cutKinds)], Pace: netlab.Pace(i % 3), Illegal: pv, IllegalJ: j}
+					if i >= 6 {
+						sc.IllegalBody, sc.CutKind, sc.Pace = true, "one-write", netlab.Pace(0)
+						if i == 7 {
+							// small good packets, so that they and the over-long one fit one read
+							for k := range sc.Sizes {
+								sc.Sizes[k] = 4 + k%9
+							}
+						}
+					}
 					if side == "server" {
 						srv := startServer(i % 2)
 						sc.Pool = i % 2
